@@ -87,7 +87,13 @@ pub fn two_path_ops(a: &str, b: &str, rich: bool) -> Vec<Op> {
         v.push(Op::CopyB(x.clone(), y.clone(), CopyOpt { mode: CopyMode::All(0o700), follow: false }));
         v.push(Op::CopyB(x.clone(), y.clone(), CopyOpt { mode: CopyMode::Dirs(0o711), follow: false }));
         v.push(Op::CopyB(x.clone(), y.clone(), CopyOpt { mode: CopyMode::Files(0o604), follow: false }));
-        v.push(Op::CopyB(x, y, CopyOpt { mode: CopyMode::None, follow: true }));
+        v.push(Op::CopyB(x.clone(), y.clone(), CopyOpt { mode: CopyMode::None, follow: true }));
+        // the target spelled relative to the link's own directory (what a link usually stores): kind and target
+        // are taken from the resolved path, not from the spelling
+        if x.starts_with('/') || x.starts_with('@') {
+            let r = crate::refpath::ref_relative(&y, &crate::refpath::parent(&x));
+            v.push(Op::Symlink(x, if r.is_empty() { ".".to_string() } else { r }));
+        }
     }
     v
 }
